@@ -128,7 +128,8 @@ class Engine(Interp, InterpExpr, InterpComp, InterpStmt, InterpCall, InterpBuilt
         # keyed by str are never the same object: their contents live in different arrays)
         names = None
         if isinstance(v, DictV):
-            names = (self.dict_has(v)[0], self.dict_val(v)[0])
+            on, _, ln, _ = self.dict_order(v)      # the insertion-order ghost belongs to the contents of the dict
+            names = (self.dict_has(v)[0], self.dict_val(v)[0], on, ln)
         elif isinstance(v, SetV) and v.ety != ANY:
             names = (self.set_arr(v)[0],)
         elif isinstance(v, ListV):
